@@ -132,6 +132,11 @@ def r00(ctx, repo, files=None):
                     stores.setdefault(x.id, []).append(x)
                 else:
                     loads.add(x.id)
+            if isinstance(x, ast.AugAssign) and isinstance(x.target,
+                                                           ast.Name):
+                # in-place update of an array view reads (and writes
+                # through) the name
+                loads.add(x.target.id)
         params = {a.arg for a in fn.args.args + fn.args.kwonlyargs}
         for v, nodes in sorted(stores.items()):
             if v in loads or v.startswith('_') or v in params:
